@@ -1,6 +1,7 @@
 package main
 
 import (
+	"runtime/debug"
 	"encoding/json"
 	"fmt"
 	"os"
@@ -353,6 +354,9 @@ func safeRun(pf rules.PropertyFunc, run *rules.Run, id string) (rep *core.Report
 		if e := recover(); e != nil {
 			rep = core.NewReport(id)
 			rep.Undecided(id+".panic", "analyser", "-", fmt.Sprintf("analyser panicked: %v", e))
+			if os.Getenv("CACHELINT_STACK") != "" {
+				fmt.Fprintf(os.Stderr, "%s: %v\n%s\n", id, e, debug.Stack())
+			}
 		}
 	}()
 	return pf(run)
